@@ -213,6 +213,7 @@ def run(v, tier, seed, replay=None):
     bad = []
     in_scope = 0
     spec_dis = []
+    crashed = []
     for c, i, ql in zip(cases, io, qo):
         exp, scoped, why = oracle(c.split())
         # the extracted Coq specification and the Python transcription of the property text must be the same oracle
@@ -221,8 +222,13 @@ def run(v, tier, seed, replay=None):
         qexp = qt[:-1] if not qscoped else qt
         if qexp != exp or qscoped != scoped:
             spec_dis.append((c, ' '.join(qt), ' '.join(exp)))
-        got = visible(i)
         in_scope += scoped
+        if i == 'SKIPPED':
+            continue          # the harness gave up on this shard after repeated crashes: not evaluated
+        if i.startswith('CRASH') or i.startswith('HANG'):
+            crashed.append((c, i))
+            continue
+        got = visible(i)
         n = len(exp)
         if got[:n] != exp[:len(got[:n])] or (scoped and len(got) != n) or (not scoped and len(got) < n):
             k = next((j for j in range(min(len(got), n)) if got[j] != exp[j]), min(len(got), n))
@@ -232,6 +238,10 @@ def run(v, tier, seed, replay=None):
         key = 'oracle:' + classify(c, k)
         v.violation(key, 'UncompressedFile departs from the reference byte queue on [%s] at call %d (%s): expected %s, the library gives %s' % (c, k + 1, c.split()[k] if k < len(c.split()) else '-', e, g),
                     {'ops': c, 'call_index': k, 'expected': e, 'implementation': g, 'failing_histories': len(bad)})
+    if crashed:
+        c, i = min(crashed, key=lambda x: (len(x[0].split()), len(x[0])))
+        v.violation('oracle:crash', 'the history [%s] ends in %s (memory error / hang while the accessors are read back: the counts the class reports do not match what it delivered)' % (c, i[:80]),
+                    {'ops': c, 'implementation': i[:300], 'failing_histories': len(crashed)})
     if spec_dis:
         c, a, b_ = min(spec_dis, key=lambda x: len(x[0]))
         v.violation('corr:spec', 'the Coq byte queue (Lib/UFSpec.v) and the reference written from the property text disagree on %d histories; shortest [%s]: coq %s | reference %s' % (len(spec_dis), c, a[:300], b_[:300]),
@@ -254,7 +264,7 @@ def run(v, tier, seed, replay=None):
         'histories_in_scope_of_reference': in_scope, 'histories_ending_blocked': sum(1 for i in io if 'blocked' in i),
         'length_distribution': {'min': min(lens), 'max': max(lens), 'mean': round(sum(lens) / len(lens), 1)},
         'op_distribution': {k: sum(1 for c in cases for t in c.split() if t[0] == k) for k in 'wcrsndFBCa'},
-        'correspondence_disagreements': len(dis), 'oracle_failures': len(bad), 'spec_disagreements': len(spec_dis),
+        'correspondence_disagreements': len(dis), 'oracle_failures': len(bad), 'crashes_or_hangs': len(crashed), 'spec_disagreements': len(spec_dis),
         'samples': cases[:2] + cases[-3:],
     })
     return 'proof'
